@@ -13,7 +13,11 @@ type vnCountVisitor struct{ enters, exits int }
 func (v *vnCountVisitor) Enter(n INode) IVisitor { v.enters++; return v }
 func (v *vnCountVisitor) Exit(n INode)           { v.exits++ }
 
-var vnStmtPrefixes = []string{"while(a)", "for(;;)", "for(a in b)", "for(a of b)", "if(a)", "if(a)b;else ", "do ", "do;while(a)", "a:", "with(a)", "switch(a){", "try{}catch{", "class A{", "function f(){", "x=>", "return ", "throw ", "var a=", "let[a]=", "import a from", "export ", "async function*f(){yield", "`${a}", "a?.", "new a", "label:{break ", "x={get a(){", "x={...a,", "class A{static{", "class A{#a;b(){this.#a"}
+var vnStmtPrefixes = []string{"while(a)", "for(;;)", "for(a in b)", "for(a of b)", "if(a)", "if(a)b;else ", "do ", "do;while(a)", "a:", "with(a)", "switch(a){", "try{}catch{", "class A{", "function f(){", "x=>", "return ", "throw ", "var a=", "let[a]=", "import a from", "export ", "async function*f(){yield", "`${a}", "a?.", "new a", "label:{break ", "x={get a(){", "x={...a,", "class A{static{", "class A{#a;b(){this.#a",
+	// complete single-expression programs (JSON conversion of every property / element form)
+	"x={a(){}}", "[{\"n\":1,size(){return 3}}]", "({get a(){},set a(b){}})", "({async*a(){}})", "x={[a]:1}", "[{...a}]", "({a})", "[1,,2]", "({\"k\":[1,{\"b\":null}]})", "[-1,+2,!0,`t`,/r/]",
+	// truncated multi-byte sequences at the end of the input (a symbolic byte may follow)
+	"naam\xF0\xA0\x80", "a\xE2\x80", "a\xC3", "x=\xF0\xA0", "`\xF0\xA0\x80", "'\xF0\xA0\x80", "//\xF0\xA0\x80", "/\xF0\xA0\x80", "#\xF0\xA0\x80", "a.\xF0\x9F\x98"}
 
 // VerifParseW01: js.Parse under every Options value on every (ASCII) input of length 0..N;
 // an accepted tree can be printed (String, JS), walked and converted to JSON without a panic.
